@@ -448,6 +448,45 @@ def csv_mp_case(rep, rng, tmpdir):
 		rep.diff('csv', 'multi-product network: ' + '; '.join(bad[:3]), case, py=bad[:6], oracle=True, theorem=THEOREM, finding_id=None)
 
 
+def debug_save_case(rep, rng, tmpdir):
+	"""sim_io.write_instance_and_states (the debugging save of a simulated network together with its history): saving never alters the original --
+	its demand sources, disruption processes, attributes and state variables are what they were, and it simulates as before."""
+	from stockpyl import sim_io
+	from stockpyl.sim import simulation
+	spec = simlib.gen_spec(rng, False, {'prandom': .9, 'pcostfn': 0})
+	case = {'spec': spec}
+	rep.case('roundtrip', case, nontrivial=True); rep.count('roundtrip:debug-save-of-a-simulated-network')
+	path = os.path.join(tmpdir, 'dbg_%d.json' % rng.randint(0, 10 ** 9))
+	try:
+		with warnings.catch_warnings():
+			warnings.simplefilter('ignore')
+			net, objs = simlib.build_py(spec)
+			T = min(spec['T'], 6)
+			simulation(net, T, rand_seed=3, progress_bar=False)
+			before = copy.deepcopy(net)
+			kinds = lambda nw: [(n_.index, None if n_.demand_source is None else n_.demand_source.type, None if n_.disruption_process is None else n_.disruption_process.random_process_type) for n_ in nw.nodes]
+			k0 = kinds(net)
+			sim_io.write_instance_and_states(net, path, instance_name='dbg')
+			bad = []
+			if kinds(net) != k0:
+				bad.append('demand source / disruption process kinds of the ORIGINAL changed from %s to %s' % (k0, kinds(net)))
+			if not before.deep_equal_to(net):
+				bad.append('the original is no longer deeply equal to a copy taken just before saving')
+			if not bad:
+				for b_, a_ in ((before, 'copy taken before saving'),):
+					t1 = simulation(copy.deepcopy(before), T, rand_seed=5, progress_bar=False); t2 = simulation(net, T, rand_seed=5, progress_bar=False)
+					if t1 != t2:
+						bad.append('after the save the original simulates to total cost %r, the %s to %r (same seed)' % (t2, a_, t1))
+		if bad:
+			rep.diff('roundtrip', 'write_instance_and_states altered the network it saved: ' + '; '.join(bad[:3]), case, py=bad[:4], oracle=True, theorem=THEOREM)
+	except Exception as e:
+		import traceback
+		rep.diff('roundtrip', 'write_instance_and_states raised %s: %s' % (err_enum(e), traceback.format_exc()[-250:]), case, oracle=True, theorem=THEOREM)
+	finally:
+		if os.path.exists(path):
+			os.remove(path)
+
+
 def cell_eq(cell, want):
 	if isinstance(want, bool):
 		return cell == str(want)
@@ -517,6 +556,9 @@ def run(rep, drv):
 			store_case(rep, drv, rngs, tmpdir)
 		for k in range(500 if th else 70):
 			csv_case(rep, rng, th, tmpdir)
+		rngd = random.Random(rep.seed + 1719)
+		for k in range(100 if th else 20):
+			debug_save_case(rep, rngd, tmpdir)
 		rngm = random.Random(rep.seed + 1718)
 		for k in range(150 if th else 25):
 			csv_mp_case(rep, rngm, tmpdir)
